@@ -268,4 +268,8 @@ def obligations(tier, seed):
         names = op_names('AccSignal')
         for a in names:
             for b in names:
+                if a == 'reset_values_much_shorter' and b != a:
+                    # a 4-sample record is legally refused by SciPy's filtfilt (padlen 6) and is shorter than the windows
+                    # of the baseline corrections: as a FIRST operation it only produces refusals, not staleness
+                    continue
                 yield Ob('pairs', {'op1': a, 'op2': b}, query_ms=30000, timeout_s=900)
